@@ -743,3 +743,34 @@ def cell_record_constructor(ctx, F, rule, sfx):
     if gi != ints[0]:
         bad.append('idx = %s' % gi)
     ctx.check(rule, 'cell-record-fields%s' % sfx, not bad, bad or 'loc, centroid, volume, safety_radius, idx stored as given', 'VoronoiCell::init(loc, centroid, volume, safety_radius, idx) stores argument k in field k', where(b), key_extra='cell-init')
+
+
+def early_exits(ip, marker='ConvexCellDecomposition'):
+    """Exits of the loops over the stream whose `next` mentions `marker`, taken WITH an item in hand (a `break` / `return` inside the loop body):
+    -> list of texts of the conditions.  A loop that is left only when `next()` is None gives []."""
+    import itertools
+    from .. import dtab
+    out = []
+
+    def val(leaf):
+        d = dtab.is_discr_eq(leaf)
+        if d is not None and marker in repr(d[0]) and '::next(' in repr(d[0]):
+            return (d[1] == 1) == d[2]
+        return None
+    for L in ip.loops:
+        exits = L.get('exits') or []
+        if not any(marker in repr(c) and '::next(' in repr(c) for _sk, g in exits for c in g) and not any(marker in repr(c) for g, _v in L.get('back') or [] for c in g):
+            continue
+        for _sk, g in exits:
+            leaves_ = {}
+            for c in g:
+                dtab.b_leaves(c, leaves_)
+            others = [k_ for k_, lf in leaves_.items() if val(lf) is None]
+            if len(others) > 10:
+                raise AnalysisIncomplete('%d conditions on a loop exit' % len(others))
+            for bits in itertools.product((False, True), repeat=len(others)):
+                env_ = dict(zip(others, bits))
+                if dtab.conj(g, lambda lf: val(lf) if val(lf) is not None else env_[lf.key()]):
+                    out.append(' and '.join(repr(c)[-90:] for c in g if val(c) is None)[:240] or 'unconditionally')
+                    break
+    return out
